@@ -111,6 +111,38 @@ fn shape_exec(func: &str, a: &mut Args) -> String {
                 let c = Compound::new(shapes); let s: &dyn Shape = &c; let m = s.mass_properties(d);
                 if func == "compound3_shape" { fmc3(&m) } else { format!("{} {}", fmc3(&m), d3::fv(&m.principal_inertia())) } }
         }
+        // Compound (2-D) of 1..9 placed parts of FIVE kinds (ball / cuboid / convex polygon / triangle / zero-area Segment; composite parts are rejected by Compound::new) through `&dyn Shape`
+        "compound2_shape" => {
+            use crate::p2::shape::{Ball, Compound, ConvexPolygon, Cuboid, Segment, Shape, SharedShape, Triangle};
+            let d = a.f(); let n = a.u();
+            let mut shapes: Vec<(d2::Isometry<f64>, SharedShape)> = Vec::new();
+            let mut rejected = false;
+            for _ in 0..n {
+                let m = d2::iso(a);
+                match a.u() {
+                    0 => { let r = a.f(); shapes.push((m, SharedShape::new(Ball::new(r)))); }
+                    1 => { let he = d2::v(a); shapes.push((m, SharedShape::new(Cuboid::new(he)))); }
+                    2 => { let v = pts2(a);
+                        match ConvexPolygon::from_convex_polyline_unmodified(v) { Some(p) => shapes.push((m, SharedShape::new(p))), None => rejected = true } }
+                    3 => { let (p, q) = (d2::p(a), d2::p(a)); shapes.push((m, SharedShape::new(Triangle::new(p, q, d2::p(a))))); }
+                    _ => { let (p, q) = (d2::p(a), d2::p(a)); shapes.push((m, SharedShape::new(Segment::new(p, q)))); }
+                }
+            }
+            if rejected || shapes.is_empty() { "none".into() } else {
+                let c = Compound::new(shapes); let s: &dyn Shape = &c; fmp2(&s.mass_properties(d)) }
+        }
+        // `transform_by` commutes with `+` (3-D): `(x + y).transform_by(m)` and `x.transform_by(m) + y.transform_by(m)`;
+        // mass and centre of both sides, then the two reconstructed tensors
+        "mp3_tadd" => { let x = mp3(a); let y = mp3(a); let m = d3::iso(a);
+            let l = (x + y).transform_by(&m); let r = x.transform_by(&m) + y.transform_by(&m);
+            format!("{} {}", fmc3(&l), fmc3(&r)) }
+        "mp3_tadd_tensor" => { let x = mp3(a); let y = mp3(a); let m = d3::iso(a);
+            let l = (x + y).transform_by(&m); let r = x.transform_by(&m) + y.transform_by(&m);
+            format!("{} {}", fm3(&l.reconstruct_inertia_matrix()), fm3(&r.reconstruct_inertia_matrix())) }
+        // world-space accessors: `world_com(pos)` (2-D, 3-D) and the 2-D `world_inv_inertia_sqrt(rot)`
+        "mp2_world" => { let p = mp2(a); let m = d2::iso(a);
+            format!("{} {}", d2::fp(&p.world_com(&m)), ff(p.world_inv_inertia_sqrt(&m.rotation))) }
+        "mp3_world_com" => { let p = mp3(a); let m = d3::iso(a); d3::fp(&p.world_com(&m)) }
         _ => "nofn".into(),
     }
 }
@@ -246,5 +278,33 @@ pub fn gen(r: &mut Rng, thorough: bool, v: &mut Vec<(String, String)>) {
           let cs = format!("{} {} {}", hx(d), np, parts.join(" "));
           v.push(("compound3_shape".into(), cs.clone()));
           v.push(("compound3_pin".into(), cs)); }
+        // ---- Compound (2-D), 1..9 parts of five kinds (most cases have MORE than 4 parts), through `&dyn Shape`
+        { let np = if it % 4 == 0 { 1 + r.below(4) as usize } else { 5 + r.below(5) as usize }; let mut parts: Vec<String> = Vec::new();
+          for _ in 0..np {
+              let pm = d2::gen_iso(r, lat, if lat { 4.0 } else { 20.0 });
+              let body = match r.below(5) {
+                  0 => format!("0 {}", hx(r.pos_extent(lat))),
+                  1 => format!("1 {}", d2::hv(&d2::gen_he(r, lat))),
+                  2 => { let mut pv = gen_convex(r, lat, thorough);
+                         let area2: f64 = (0..pv.len()).map(|i| { let (p, q) = (pv[i], pv[(i + 1) % pv.len()]); p.x * q.y - p.y * q.x }).sum();
+                         if area2 < 0.0 { pv.reverse(); }
+                         format!("2 {}", hpts(&pv)) }
+                  3 => format!("3 {}", htri(&gen_tri2(r, lat))),
+                  _ => { let t = gen_tri2(r, lat); format!("4 {} {}", d2::hp(&t[0]), d2::hp(&t[1])) }
+              };
+              parts.push(format!("{} {}", d2::hiso(&pm), body));
+          }
+          v.push(("compound2_shape".into(), format!("{} {} {}", hx(d), np, parts.join(" ")))); }
+        // ---- transform_by vs + (3-D): rotations AND translations, zero() / massless operands included by gen_mp3
+        { let (xa, ya) = if r.bool() { (x3, y3) } else { (gen_full_mp3(r, lat), gen_full_mp3(r, lat)) };
+          let mi = d3::gen_iso(r, lat, if lat { 4.0 } else { 50.0 });
+          let ts = format!("{} {} {}", hmp3(&xa), hmp3(&ya), d3::hiso(&mi));
+          v.push(("mp3_tadd".into(), ts.clone()));
+          v.push(("mp3_tadd_tensor".into(), ts)); }
+        // ---- world-space accessors
+        { let mi2 = d2::gen_iso(r, lat, 100.0);
+          v.push(("mp2_world".into(), format!("{} {}", hmp2(&x2), d2::hiso(&mi2))));
+          let mi3 = d3::gen_iso(r, lat, 100.0);
+          v.push(("mp3_world_com".into(), format!("{} {}", hmp3(&x3), d3::hiso(&mi3)))); }
     }
 }
